@@ -178,6 +178,20 @@ def r4(db, rep):
     # the exhaustive loop must not filter functions: between functions() and the address comparison no Function::address call
     r.decide(all(cfg.dominates(last_loop, n) for n in nones), "from_address|exhaustive", db.where(body),
              "None is answered on a path that skipped the exhaustive search over all functions")
+    # ... and the exhaustive loop filters nothing: once a function has been fetched, its blocks are walked unconditionally
+    nexts = [i for i, t in mir_calls(body) if (mir_callee(t) or "").endswith("Iterator>::next") and cfg.dominates(last_loop, i)]
+    blocks_calls = [i for i, t in mir_calls(body) if (mir_callee(t) or "") == "il::function::Function::blocks" and cfg.dominates(last_loop, i)]
+    ok = bool(nexts) and bool(blocks_calls)
+    if ok:
+        fn_next = min(nexts)          # the loop over functions is the outermost of the three nested loops
+        reach = set()
+        for s_ in cfg.succ[fn_next]:
+            reach |= cfg.reachable(s_, avoid=blocks_calls)
+        # without walking the blocks only the loop exit (None) may be reached, not the next function
+        ok = fn_next not in reach
+    r.decide(ok, "from_address|exhaustive_unfiltered", db.where(body, body["blocks"][last_loop]["t"].get("l")),
+             "the exhaustive pass skips functions without looking at their instructions: an instruction that lies below its "
+             "function's entry address (or in any function the filter excludes) is not found")
 
 
 MANIFEST = {
